@@ -130,4 +130,44 @@ theorem readers_shared_thr {rs : List (List Role)} {c : Cfg} (h : Reach GP rs c)
     hi rfl (by rw [round_len_reader]; omega) hex
   exact ⟨c', hrun, by simpa using hthr⟩
 
+/-! ### reusable, operationally: from an all-idle reachable configuration any thread runs its next complete round alone -/
+
+theorem solo_round {rs : List (List Role)} {c : Cfg} (h : Reach GP rs c) (hidle : ∀ t ∈ c.thr, t.idle = true)
+    (i : Nat) (r : Role) (rest : List Role) (hi : c.thr[i]? = some ⟨r :: rest, 0⟩) :
+    ∃ c', runSched GP c (List.replicate (GP.round r).length i) = .ok c' ∧ c'.sh = c.sh ∧
+      c'.thr = c.thr.set i ⟨rest, 0⟩ := by
+  have hsh := reusable_thr h hidle
+  obtain ⟨sh, thr⟩ := c
+  simp only at hsh hi; subst hsh
+  have hlt : i < thr.length := (List.getElem?_eq_some_iff.mp hi).1
+  cases r with
+  | reader =>
+    obtain ⟨c1, hrun, hsh1, hthr1⟩ := solo_run (P := GP) i 11 ⟨⟨0, 0, 0, 0, 0, 0, 0⟩, thr⟩ (.reader :: rest) 0 .reader rest
+      ⟨0, 0, 0, 1, 0, 0, 0⟩ hi rfl (by rw [round_len_reader]; omega)
+      (show execAll (((GP.round .reader).drop 0).take 11) ⟨0, 0, 0, 0, 0, 0, 0⟩ = some _ by decide)
+    obtain ⟨sh1, thr1⟩ := c1
+    simp only at hsh1 hthr1; subst hsh1; subst hthr1
+    have hstep : tstep GP ⟨⟨0, 0, 0, 1, 0, 0, 0⟩, thr.set i ⟨.reader :: rest, 0 + 11⟩⟩ i =
+        .ok ⟨⟨0, 0, 0, 0, 0, 0, 0⟩, thr.set i ⟨rest, 0⟩⟩ := by
+      unfold tstep
+      simp only [List.getElem?_set_self hlt, List.set_set]
+      rfl
+    refine ⟨⟨⟨0, 0, 0, 0, 0, 0, 0⟩, thr.set i ⟨rest, 0⟩⟩, ?_, rfl, rfl⟩
+    rw [round_len_reader, show (12 : Nat) = 11 + 1 from rfl, List.replicate_succ', runSched_append _ _ _ _ hrun]
+    simp only [runSched, hstep]
+  | writer =>
+    obtain ⟨c1, hrun, hsh1, hthr1⟩ := solo_run (P := GP) i 9 ⟨⟨0, 0, 0, 0, 0, 0, 0⟩, thr⟩ (.writer :: rest) 0 .writer rest
+      ⟨0, 0, 0, 0, 1, 0, 0⟩ hi rfl (by rw [round_len_writer]; omega)
+      (show execAll (((GP.round .writer).drop 0).take 9) ⟨0, 0, 0, 0, 0, 0, 0⟩ = some _ by decide)
+    obtain ⟨sh1, thr1⟩ := c1
+    simp only at hsh1 hthr1; subst hsh1; subst hthr1
+    have hstep : tstep GP ⟨⟨0, 0, 0, 0, 1, 0, 0⟩, thr.set i ⟨.writer :: rest, 0 + 9⟩⟩ i =
+        .ok ⟨⟨0, 0, 0, 0, 0, 0, 0⟩, thr.set i ⟨rest, 0⟩⟩ := by
+      unfold tstep
+      simp only [List.getElem?_set_self hlt, List.set_set]
+      rfl
+    refine ⟨⟨⟨0, 0, 0, 0, 0, 0, 0⟩, thr.set i ⟨rest, 0⟩⟩, ?_, rfl, rfl⟩
+    rw [round_len_writer, show (10 : Nat) = 9 + 1 from rfl, List.replicate_succ', runSched_append _ _ _ _ hrun]
+    simp only [runSched, hstep]
+
 end RW
